@@ -402,18 +402,22 @@ class Beam(_Simu):
         if nodes.size > 1:
             # For each direction, we'll apply the conditions
             for d, dir in enumerate(unknowns):
-                dofs = self.Bc_dofs_nodes(nodes, [dir], problemType)
+                # every node is tied to the first one (u_0 - u_k = 0): n members meeting at a joint
+                # give n - 1 independent conditions per direction
+                for node in nodes[1:]:
+                    pair = np.asarray([nodes[0], node])
+                    dofs = self.Bc_dofs_nodes(pair, [dir], problemType)
 
-                new_LagrangeBc = LagrangeCondition(
-                    problemType,
-                    nodes,
-                    dofs,
-                    [dir],
-                    np.asarray([0], dtype=float),
-                    np.asarray([1, -1], dtype=float),
-                    description,
-                )
-                self._Bc_Add_Lagrange(new_LagrangeBc)
+                    new_LagrangeBc = LagrangeCondition(
+                        problemType,
+                        pair,
+                        dofs,
+                        [dir],
+                        np.asarray([0], dtype=float),
+                        np.asarray([1, -1], dtype=float),
+                        description,
+                    )
+                    self._Bc_Add_Lagrange(new_LagrangeBc)
         else:
             self.add_dirichlet(nodes, [0] * len(unknowns), unknowns)
 
